@@ -45,7 +45,7 @@ def programs(seed, n):
 
 
 def validate(ctx, trace, tag):
-    r = vlib.tlc("CheckTrace.tla", "CheckTrace.cfg", workers=1, timeout=3000, env={"TRACE": trace},
+    r = vlib.tlc("CheckTrace.tla", "CheckTrace.cfg", workers=1, timeout=12000, env={"TRACE": trace},
                  metadir=os.path.join(ctx.out, "tv-" + tag), heap="6g")
     if r.error or r.violated or r.printed("TOOLERR"):
         open(os.path.join(ctx.out, "tv-%s.log" % tag), "w").write(r.out)
@@ -71,7 +71,7 @@ def run(ctx):
                       ("MCCheckOneCopy.cfg", "reads only the copy of a twice-stored blob that its own lookup returned (the library before fix eac9a9d)")):
         r = vlib.tlc("Check.tla", cfg, workers=1, timeout=300, metadir=os.path.join(ctx.out, "mc-" + cfg))
         ctx.negative_control(r.violated == "Sound", "model: a check that %s must violate Sound" % what)
-    progs = programs(ctx.seed, 3 if q else 30)
+    progs = programs(ctx.seed, 3 if q else 120)
     pf = os.path.join(ctx.out, "programs.ndjson")
     open(pf, "w").write("\n".join(json.dumps(p) for p in progs) + "\n")
     trace = os.path.join(ctx.out, "trace.ndjson")
